@@ -13,7 +13,7 @@ pkgdir() {
     regexanalysis|regexanalysis_test) echo internal/tools/regexAnalysis;; main) echo cmd/pkappa2;; builder|builder_test) echo internal/index/builder;; *) echo "";;
   esac
 }
-for d in /verif/seeded/*/; do
+for d in /verif/seeded/${ONLY:-*}/; do
   id=$(basename $d)
   [ -f $d/patch.diff ] || continue
   cd $WT && git checkout -q -- . && git clean -fdq -e web/dist >/dev/null
